@@ -31,6 +31,13 @@ var solvers = map[string]solverCfg{
 func (g *fnGen) scriptHeader() string {
 	var b strings.Builder
 	b.WriteString(g.R.preludeText(g.P.implements))
+	if len(g.errGlobals) > 1 {
+		var vs []string
+		for _, e := range g.errGlobals {
+			vs = append(vs, S("i-val", e))
+		}
+		b.WriteString("(assert (distinct " + strings.Join(vs, " ") + "))\n")
+	}
 	if len(g.globals) > 1 {
 		b.WriteString("(assert (distinct " + strings.Join(g.globals, " ") + "))\n")
 	}
@@ -84,6 +91,7 @@ type solveOpts struct {
 	thorough  bool
 	seed      int
 	keepFiles bool
+	wantRetry func(name string) bool
 }
 
 func runSolver(ctx context.Context, sc solverCfg, file string, timeoutMs int, onLine func(line string, at time.Time)) (string, error) {
@@ -172,6 +180,9 @@ func (g *fnGen) solve(opt solveOpts) error {
 			}
 			continue
 		}
+		if opt.wantRetry != nil && !opt.wantRetry(ob.Name) {
+			continue
+		}
 		wg.Add(1)
 		go func(ob *Obligation) { defer wg.Done(); g.retry(ob, base, opt) }(ob)
 	}
@@ -223,14 +234,30 @@ func (g *fnGen) retry(ob *Obligation, base string, opt solveOpts) {
 	tm := opt.timeoutMs * 2
 	ctx, cancel := context.WithTimeout(context.Background(), time.Duration(tm)*time.Millisecond+5*time.Second)
 	defer cancel()
-	ch := make(chan raceResult, 3)
-	names := []string{"z3-new", "z3", "cvc5"}
+	ch := make(chan raceResult, 4)
+	names := []string{"z3-new", "z3", "cvc5", "relaxed"}
 	for _, name := range names {
 		go func(name string) {
 			solverSem <- struct{}{}
 			defer func() { <-solverSem }()
 			sc := solvers[name]
 			f := file
+			if name == "relaxed" {
+				// same query with every quantified assertion dropped: unsat is still a proof
+				// (fewer assumptions); sat yields a candidate counterexample for the replay.
+				sc = solvers["z3-new"]
+				f = file + ".relaxed"
+				data, _ := os.ReadFile(file)
+				var keep []string
+				for _, l := range strings.Split(string(data), "\n") {
+					if strings.Contains(l, "(forall ") || strings.Contains(l, "(exists ") {
+						continue
+					}
+					keep = append(keep, l)
+				}
+				os.WriteFile(f, []byte(strings.Join(keep, "\n")), 0o644)
+				defer os.Remove(f)
+			}
 			if sc.pre != "" {
 				f = file + "." + name
 				data, _ := os.ReadFile(file)
@@ -264,6 +291,14 @@ func (g *fnGen) retry(ob *Obligation, base string, opt solveOpts) {
 			continue
 		}
 		st := classify(ob, rr.res)
+		if rr.name == "relaxed" && rr.res == "sat" {
+			// candidate only: quantified axioms were dropped
+			if ob.Model == "" {
+				ob.Model = rr.model
+				ob.ModelRelaxed = true
+			}
+			continue
+		}
 		if rr.res == "unsat" || rr.res == "sat" {
 			ob.Status, ob.Backend, ob.Seconds, ob.SolverOut = st, rr.name, rr.secs, rr.res
 			ob.Model = rr.model
